@@ -170,3 +170,27 @@ func init() {
 		return nil
 	})
 }
+
+// Workload "e2elpg": one `histself` line, answered by `ldriver_sql` (the LeanPG executable) itself.
+// Its purpose is to make `bin/check` list `ldriver_sql` among the drivers it rebuilds, so that the
+// MODELLED Postgres the other workloads of a fragment talk to is the one regenerated from the
+// checked tree's migrations (translator t2_schema → Generated/Schema.lean → ldriver_sql).
+func init() {
+	gen.Register("e2elpg", func(c *gen.Ctx) error {
+		const base = int64(1700000000000000)
+		type posting struct {
+			Source      string `json:"source"`
+			Destination string `json:"destination"`
+			Amount      string `json:"amount"`
+			Asset       string `json:"asset"`
+		}
+		ops := []map[string]any{
+			{"op": "tx", "at": base, "timestamp": nil, "postings": []posting{{"world", "users:alice", "100", "USD/2"}},
+				"reference": "", "metadata": map[string]string{"k": "v"}, "accountMetadata": map[string]any{}, "force": false},
+			{"op": "tx", "at": base + 1000, "timestamp": base - 5000, "postings": []posting{{"users:alice", "bank", "40", "USD/2"}},
+				"reference": "r1", "metadata": map[string]string{}, "accountMetadata": map[string]any{}, "force": true},
+			{"op": "revert", "at": base + 2000, "id": 1, "force": true, "atEffectiveDate": false, "metadata": map[string]string{}},
+		}
+		return c.Emit("histself", map[string]any{"ops": ops}, map[string]any{})
+	})
+}
